@@ -77,6 +77,7 @@ type ContractDB struct {
 	Order []*Contract
 	Views map[string][2]string
 	Pure  []string
+	CallerView map[string]*Contract
 }
 
 var clauseKinds = map[string]bool{
@@ -134,8 +135,13 @@ func parseContractFile(db *ContractDB, path string, defaultPkg string) error {
 			cpkg := pkg
 			// spec files may fully qualify: path/to/pkg.Name or (path/to/pkg.T).Name
 			cur = &Contract{Pkg: cpkg, Key: key, File: path, Line: ln, Mode: "int"}
-			if _, dup := db.ByKey[cur.FullKey()]; dup {
-				return fmt.Errorf("%s:%d: duplicate contract for %s", path, ln, cur.FullKey())
+			if old, dup := db.ByKey[cur.FullKey()]; dup {
+				if old.Trusted && defaultPkg != "" {
+					// a contract in /verif/spec stays the callers' view; the one in /repo is what the body is verified against
+					db.CallerView[cur.FullKey()] = old
+				} else {
+					return fmt.Errorf("%s:%d: duplicate contract for %s", path, ln, cur.FullKey())
+				}
 			}
 			db.ByKey[cur.FullKey()] = cur
 			db.Order = append(db.Order, cur)
@@ -316,7 +322,7 @@ func parseDef(d *SpecDef, rest string) error {
 }
 
 func loadContracts(repo string, specDir string, pkgDirs map[string]string) (*ContractDB, error) {
-	db := &ContractDB{ByKey: map[string]*Contract{}, Defs: map[string]*SpecDef{}, Views: map[string][2]string{}}
+	db := &ContractDB{ByKey: map[string]*Contract{}, Defs: map[string]*SpecDef{}, Views: map[string][2]string{}, CallerView: map[string]*Contract{}}
 	specs, _ := filepath.Glob(filepath.Join(specDir, "*.spec"))
 	for _, s := range specs {
 		if err := parseContractFile(db, s, ""); err != nil {
